@@ -191,14 +191,16 @@ def gen_schedule(rng, N, vr=False, ratio=1.0):
         ops.append("limit %d" % N)
         for _ in range(20 + rng.below(60)):
             ops.append("feed %d %d %d" % (rng.choice([1, 3, 7, 12, 15, 40]), rng.choice([1, 2, 5, 10, 15]), rng.below(2)))
+            if vr and rng.chance(.1):
+                ops.append("ratio %.6f %d" % (ratio * rng.choice([.45, .5, .7, .9, 1.0]), rng.choice([0, 100, 1000])))
         ops.append("feed %d %d 0" % (N, rng.choice([1, 7, 15])))
         ops.append("drain %d" % rng.choice([5, 15, max(15, est // 40)]))
     elif style == 0:          # push
         ops.append("limit %d" % N)
         for _ in range(2 + rng.below(12)):
             ops.append("feed %d %d %d" % (rng.choice([1, 7, 64, 100, 333, 1000, 4096]), rng.choice([1, 10, 64, 257, 1000, 5000]), rng.below(2)))
-            if vr and rng.chance(.2):
-                ops.append("ratio %.6f %d" % (ratio * rng.choice([.5, .9, 1.1, 1.5]), rng.choice([0, 100, 1000])))
+            if vr and rng.chance(.35):      # moves across octave boundaries (stage switches, cross-fades) while streaming; never above the maximum
+                ops.append("ratio %.6f %d" % (ratio * rng.choice([.5, .9, .45, .7, 1.0, .26]), rng.choice([0, 100, 1000])))
         ops.append("feed %d %d 0" % (N, rng.choice([100, 1000, 4096])))
         ops.append("drain %d" % max(64, est // 20))
     elif style == 1:          # pull
@@ -207,6 +209,8 @@ def gen_schedule(rng, N, vr=False, ratio=1.0):
         ops.append("script " + " ".join("d%d" % rng.choice([1, 16, 100, 333, 1024, 5000]) for _ in range(3 + rng.below(12))) + " d100000000")
         for _ in range(rng.below(5)):
             ops.append("pull %d" % rng.choice([1, 10, 100, 1000]))
+            if vr and rng.chance(.4):
+                ops.append("ratio %.6f %d" % (ratio * rng.choice([.5, .45, .7, 1.0]), rng.choice([0, 100, 1000])))
         ops.append("pulldrain %d" % max(64, est // 20))
     else:                     # one-shot
         ops.append("limit %d" % N)
